@@ -40,7 +40,18 @@ def new_workspace(rng, nmods=None):
     if rng.random() < 0.6:
         inc = f"frag{tag}_inc.f90"
         ws["files"][inc] = {"kind": "include", "vars": [new_var(rng, ws, "integer"), new_var(rng, ws, "real")]}
-        ws["files"][f"main{tag}.f90"]["includes"].append(inc)
+        mainu = ws["files"][f"main{tag}.f90"]
+        mainu["includes"].append(inc)
+        if rng.random() < 0.5:
+            # the fragment also declares a type; the including program extends it and uses the
+            # inherited components (links that lead into the fragment's own syntax tree)
+            ft = new_type(rng, ws)
+            ws["files"][inc]["types"] = [ft]
+            lt = new_type(rng, ws, ft["name"])
+            mainu["local_types"] = [lt]
+            ov = f"f{uid(ws)}{ident(rng, 1)}"
+            mainu["vars"].append({"name": ov, "type": f"type({lt['name']})", "attrs": [], "doc": False})
+            mainu["stmts"] += [f"{ov}%{c['name']} = 3" for c in ft["comps"][:2] + lt["comps"][:1]]
     if rng.random() < 0.5:
         m = rng.choice(mods)
         mu = ws["files"][f"{m}.f90"]
@@ -365,6 +376,11 @@ def render(unit):
         ls.append("  implicit none")
         for inc in unit["includes"]:
             ls.append(f"  include '{inc}'")
+        for t in unit.get("local_types", []):
+            ls.append(f"  type, extends({t['parent']}) :: {t['name']}" if t["parent"] else f"  type :: {t['name']}")
+            for c in t["comps"]:
+                ls += decl(c, "    ")
+            ls.append(f"  end type {t['name']}")
         for v in unit["vars"]:
             ls += decl(v)
         for s in unit["stmts"]:
@@ -372,6 +388,11 @@ def render(unit):
         # a main program needs no PROGRAM statement: its statements then sit outside any named unit
         ls.append("end" if unit.get("headless") else f"end program {unit['name']}")
     elif k == "include":
+        for t in unit.get("types", []):
+            ls.append(f"type :: {t['name']}")
+            for c in t["comps"]:
+                ls += decl(c, "  ")
+            ls.append(f"end type {t['name']}")
         for v in unit["vars"]:
             ls += decl(v, "")
     elif k == "submodule":
@@ -470,7 +491,7 @@ def replace_everywhere(ws, old, new, skip_file=None):
 OPERATORS = ["rename_module", "rename_type", "add_component", "remove_component", "add_proc",
              "remove_proc", "toggle_private", "retarget_extends", "change_use", "move_type",
              "create_file", "delete_file", "rename_var", "toggle_long_line", "edit_macro",
-             "rename_file", "change_include", "reorder"]
+             "rename_file", "change_include", "reorder", "edit_fragment"]
 
 
 def apply_operator(rng, ws, op=None):
@@ -682,6 +703,31 @@ def apply_operator(rng, ws, op=None):
         i, j = rng.sample(range(len(seq)), 2)
         seq[i], seq[j] = seq[j], seq[i]
         return {"op": op, "file": f, "what": key}
+    if op == "edit_fragment":
+        # only a declarations-only INCLUDE fragment changes: a component or variable of it is renamed,
+        # added or removed (consistently used by the includer or not)
+        incs = sorted(n for n, u in ws["files"].items() if u["kind"] == "include")
+        if not incs:
+            return None
+        f = rng.choice(incs)
+        u = ws["files"][f]
+        pool = [c for t in u.get("types", []) for c in t["comps"]] + u["vars"]
+        r = rng.random()
+        if r < 0.5 and pool:
+            v = rng.choice(pool)
+            old, new = v["name"], f"fr{uid(ws)}{ident(rng, 2)}"
+            v["name"] = new
+            v["type"] = rng.choice(["integer", "real", "logical"])
+            if consistent:
+                for pu in ws["files"].values():
+                    if pu["kind"] == "program":
+                        pu["stmts"] = [st.replace("%" + old + " ", "%" + new + " ") for st in pu["stmts"]]
+            return {"op": op, "old": old, "new": new, "consistent": consistent}
+        if r < 0.75 and u.get("types"):
+            rng.choice(u["types"])["comps"].append(new_var(rng, ws, "integer"))
+            return {"op": op, "added": "component"}
+        u["vars"].append(new_var(rng, ws, "integer"))
+        return {"op": op, "added": "var"}
     if op == "change_include":
         progs = sorted(n for n, u in ws["files"].items() if u["kind"] == "program")
         incs = sorted(n for n, u in ws["files"].items() if u["kind"] == "include")
